@@ -357,8 +357,15 @@ def observe_batch(rc, stdout, stderr, n):
             cur["status"], cur["pv"] = "panic", line[8:]
     for s in segs:
         if s["status"] == "?":
-            s["status"] = "timeout" if rc is None else "died(rc=%s)" % rc
-            s["msg"] = (stderr or "").strip()[-300:]
+            m = re.search(r"^Error: (.*)$", (stderr or "") + "\n" + (stdout or ""), re.M)
+            if rc is None:
+                s["status"] = "timeout"
+            elif m and rc != 0 and s is segs[-1]:          # an error the wrapper's try/catch could not catch ended the process here
+                s["status"], s["msg"] = "error", m.group(1)
+                s["ec"] = err_class(s["msg"])
+            else:
+                s["status"] = "died(rc=%s)" % rc
+                s["msg"] = (stderr or "").strip()[-300:]
     while len(segs) < n:
         b = _blank()
         b["status"] = "notrun"
